@@ -518,6 +518,22 @@ def gen_cases(c, scale):
     for _ in range(3 * scale):       # large documents (tens of KiB)
         t = [gen_tree(rng, 4, [40]) for _ in range(rng.randrange(40, 120))]
         docs.append(render(rng, t, 0.3))
+    # UTF-8 boundary grid inside a string (ties Model.utf8Valid, the RFC 3629 table, to utf8::validate)
+    leads = (0x7F, 0x80, 0xBF, 0xC0, 0xC1, 0xC2, 0xDF, 0xE0, 0xE1, 0xEC, 0xED, 0xEE, 0xEF, 0xF0, 0xF1, 0xF3, 0xF4, 0xF5, 0xF8, 0xFF)
+    seconds = (0x41, 0x7F, 0x80, 0x8F, 0x90, 0x9F, 0xA0, 0xBF, 0xC0)
+    tails = (0x7F, 0x80, 0xBF, 0xC0)
+    for a in leads:
+        docs.append(b'"' + bytes([a]) + b'"')
+        for b in seconds:
+            docs.append(b'"' + bytes([a, b]) + b'"')
+            for c3 in tails:
+                docs.append(b'"x' + bytes([a, b, c3]) + b'y"')
+                for c4 in (tails if a >= 0xF0 else (0x80,)):
+                    docs.append(b'"' + bytes([a, b, c3, c4]) + b'"')
+    if scale > 1:
+        for a in range(0x80, 0x100):
+            for b in range(0x70, 0x100, 1):
+                docs.append(b'"' + bytes([a, b, 0x80, 0x80]) + b'"')
     base = list(docs)
     for _ in range(2500 * scale):    # single-byte mutations
         d = rng.choice(base)
@@ -543,6 +559,8 @@ def gen_cases(c, scale):
                 continue            # the list-based model writer is cubic in the depth for the readable form
             write.append(f"write {m} " + "a 1 " * n + "n")
             write.append(f"write {m} " + "o 1 6b " * n + "d 3ff0000000000000")
+    for _ in range(1500 * scale):     # NumLaw / NumIdem on the real library: single numbers across the double range
+        write.append(f"write 0 d {rand_double_bits(rng):016x}")
     for b in range(256):
         write.append(f"write 0 s {bytes([b]).hex()}")
         write.append(f"write 1 o 1 {bytes([b]).hex()} n")
@@ -608,7 +626,7 @@ def main():
         "float->integer static_cast of out-of-range values is UB in C++; observed to throw on x86-64/g++ 12 (differential grid only)",
         "std::map/std::vector/std::string/std::stack semantics; std::istream::get, sscanf(%x) on four hex digits",
     ]
-    scale = 5 if c.tier == "thorough" else 1
+    scale = 20 if c.tier == "thorough" else 1
 
     c.translate("c11.py")
     proved = c.prove(["Cppcms.C11.Props"], OBLIGATIONS, exe="c11_model")
